@@ -18,9 +18,23 @@ wt = '/var/tmp/confirm-%s' % sid
 PY = '/venv/bin/python'
 
 
-def sh(cmd, cwd=None, timeout=1800):
-    p = subprocess.run(cmd, cwd=cwd, capture_output=True, text=True, timeout=timeout)
-    return p.returncode, p.stdout + p.stderr
+def sh(cmd, cwd=None, timeout=1200):
+    # own session + output to a file: a test that leaves forked children behind must not be able to hang us
+    import signal
+    import tempfile
+    with tempfile.TemporaryFile('w+') as out:
+        p = subprocess.Popen(cmd, cwd=cwd, stdout=out, stderr=subprocess.STDOUT, text=True, start_new_session=True)
+        try:
+            rc = p.wait(timeout)
+        except subprocess.TimeoutExpired:
+            rc = -9
+        try:
+            os.killpg(p.pid, signal.SIGKILL)
+        except OSError:
+            pass
+        p.wait()
+        out.seek(0)
+        return rc, out.read()
 
 
 def pytest(args, cwd):
